@@ -255,3 +255,42 @@ package flows
 //@   ensures[no-previous-certificate] lastSentCertificate == nil ==> result == nil
 //@   ensures[contiguous-is-accepted] (lastSentCertificate != nil && lastSentCertificate.Status != agglayertypes.InError && newFromBlock == lastSentCertificate.ToBlock + 1) ==> result == nil
 //@   ensures[gap-with-events-refused] (result == nil && lastSentCertificate != nil && lastSentCertificate.Status != agglayertypes.InError && lastSentCertificate.ToBlock + 1 < newFromBlock) ==> nBridgesOf(lastSentCertificate.ToBlock + 1, newFromBlock - 1) == 0 && nClaimsOf(lastSentCertificate.ToBlock + 1, newFromBlock - 1) == 0 && !f.cfg.RequireNoFEPBlockGap
+
+// the checks every flow applies to the parameters before building (C02, C09)
+//@ func (f *baseFlow) VerifyBuildParams
+//@   props C02 C09
+//@   requires f != nil && fullCert != nil
+//@   modifies nothing
+//@   ensures[retry-first-block] result == nil ==> ((fullCert.RetryCount > 0 && fullCert.LastSentCertificate != nil) ==> fullCert.FromBlock == fullCert.LastSentCertificate.FromBlock)
+//@   ensures[claims-consistent-with-their-exit-roots] result == nil ==> forall(k, 0, len(fullCert.Claims), fullCert.Claims[k].GlobalExitRoot == H(fullCert.Claims[k].MainnetExitRoot, fullCert.Claims[k].RollupExitRoot))
+
+// the flows hold the base flow behind an interface; in production it is *baseFlow (factory.go): its proved contracts
+// are used at those call sites (recorded as an assumption in the evidence)
+//@ interface github.com/agglayer/aggkit/aggsender/types.AggsenderFlowBaser.GetCertificateBuildParamsInternal (f, ctx, certType)
+//@   sameas github.com/agglayer/aggkit/aggsender/flows.(*baseFlow).GetCertificateBuildParamsInternal
+//@ interface github.com/agglayer/aggkit/aggsender/types.MaxL2BlockNumberLimiterInterface.AdaptCertificate (f, buildParams)
+//@   sameas github.com/agglayer/aggkit/aggsender/flows.(*MaxL2BlockNumberLimiter).AdaptCertificate
+//@ interface github.com/agglayer/aggkit/aggsender/types.AggsenderFlowBaser.VerifyBuildParams (f, ctx, fullCert)
+//@   sameas github.com/agglayer/aggkit/aggsender/flows.(*baseFlow).VerifyBuildParams
+//@ interface github.com/agglayer/aggkit/aggsender/types.AggsenderFlowBaser.BuildCertificate (f, ctx, certParams, lastSentCertificate, allowEmptyCert)
+//@   sameas github.com/agglayer/aggkit/aggsender/flows.(*baseFlow).BuildCertificate
+
+// ---- the PP flow's build parameters (C02, C09, C17): the next contiguous range, cut by the configured limits, its
+// claims checked against their exit roots, and the L1 info root to prove against taken together with its leaf count
+//@ interface github.com/agglayer/aggkit/aggsender/types.L1InfoTreeDataQuerier.GetLatestFinalizedL1InfoRoot (self, ctx)
+//@   modifies nothing
+//@   ensures result2 != nil ==> result0 == nil && result1 == nil
+//@   ensures result2 == nil ==> result0 != nil && result1 != nil && result0.Index == result1.L1InfoTreeIndex && result0.Hash == l1RootHashAt(result1.L1InfoTreeIndex)
+
+//@ func (p *PPFlow) GetCertificateBuildParams
+//@   props C02 C09 C17
+//@   requires p != nil && p.baseFlow != nil && p.log != nil && p.l1InfoTreeDataQuerier != nil && typeIs(p.baseFlow, *baseFlow) && cast(p.baseFlow, *baseFlow).l2BridgeQuerier != nil && cast(p.baseFlow, *baseFlow).storage != nil && cast(p.baseFlow, *baseFlow).log != nil
+//@   requires storedLastCert != nil ==> (storedLastCert.RetryCount < 9223372036854775807 && storedLastCert.FromBlock <= storedLastCert.ToBlock)
+//@   requires cast(p.baseFlow, *baseFlow).cfg.StartL2Block < 18446744073709551615 && l2Synced < 9223372036854775808
+//@   modifies heap
+//@   ensures[error-means-nothing] result1 != nil ==> result0 == nil
+//@   ensures[root-and-leaf-count-belong-together] (result1 == nil && result0 != nil) ==> result0.L1InfoTreeRootFromWhichToProve == l1RootHashAt((result0.L1InfoTreeLeafCount + 4294967295) % 4294967296)
+//@   ensures[claims-consistent-with-their-exit-roots] (result1 == nil && result0 != nil) ==> forall(k, 0, len(result0.Claims), result0.Claims[k].GlobalExitRoot == H(result0.Claims[k].MainnetExitRoot, result0.Claims[k].RollupExitRoot))
+//@   ensures[never-empty] (result1 == nil && result0 != nil) ==> (len(result0.Bridges) > 0 || len(result0.Claims) > 0 || p.maxL2BlockLimiter != nil)
+//@   ensures[range-starts-where-the-chain-continues] (result1 == nil && result0 != nil && storedLastCert != nil && storedLastCert.Status != agglayertypes.InError) ==> result0.FromBlock == storedLastCert.ToBlock + 1
+//@   ensures[retry-keeps-first-block] (result1 == nil && result0 != nil && result0.RetryCount > 0 && result0.LastSentCertificate != nil) ==> result0.FromBlock == result0.LastSentCertificate.FromBlock
